@@ -4,7 +4,7 @@
 From Coq Require Import List ZArith NArith Bool.
 From SC Require Import Model.Val.
 Import ListNotations.
-Open Scope Z_scope.
+Local Open Scope Z_scope.
 
 Definition zlen {A} (l : list A) : Z := Z.of_nat (length l).
 
@@ -65,22 +65,23 @@ Section ListOps.
     end.
 
   Section WithEq.
-    Variable eqA : A -> A -> bool.     (* eqA element probe  ==  Python  element == probe *)
-    Fixpoint list_remove (l : list A) (x : A) : res (list A) :=
+    Context {B : Type}.
+    Variable eqA : A -> B -> bool.     (* eqA element probe  ==  Python  element == probe *)
+    Fixpoint list_remove (l : list A) (x : B) : res (list A) :=
       match l with
       | [] => Err EValue
       | h :: t => if eqA h x then Ok t
                   else match list_remove t x with Ok t' => Ok (h :: t') | Err e => Err e end
       end.
-    Fixpoint list_index_from (l : list A) (x : A) (i : Z) : res Z :=
+    Fixpoint list_index_from (l : list A) (x : B) (i : Z) : res Z :=
       match l with
       | [] => Err EValue
       | h :: t => if eqA h x then Ok i else list_index_from t x (i + 1)
       end.
-    Definition list_index (l : list A) (x : A) : res Z := list_index_from l x 0.
-    Definition list_count (l : list A) (x : A) : Z :=
+    Definition list_index (l : list A) (x : B) : res Z := list_index_from l x 0.
+    Definition list_count (l : list A) (x : B) : Z :=
       zlen (filter (fun h => eqA h x) l).
-    Definition list_contains (l : list A) (x : A) : bool := existsb (fun h => eqA h x) l.
+    Definition list_contains (l : list A) (x : B) : bool := existsb (fun h => eqA h x) l.
   End WithEq.
 
   (* --- slices: PySlice_Unpack + PySlice_AdjustIndices --- *)
